@@ -227,6 +227,25 @@ Step(st0, e, strict) ==
                  ELSE R(st, "")
     [] e.op = "end" ->
          IF strict /\ e.extra > 0 /\ st.conc[1] > 0 /\ st.conc[2] > 0 /\ ~st.dead[1] /\ ~st.dead[2] THEN R(st, "C15:MessageNeverLeavesTheQueue") ELSE R(st, "")
+    \* X01 (beyond the listed properties): what qmail-qread prints at a quiescent moment is the queue: every preprocessed message
+    \* with its sender, every recipient of it on its channel, marked done exactly if the daemon has marked it.
+    \* e.recs = <<n, -1, sender, bouncing>> per message followed by <<n, channel, address, done>> per recipient
+    [] e.op = "qread" ->
+         LET heads == {i \in 1..Len(e.recs) : e.recs[i][2] = -1}
+             shown == {e.recs[i][1] : i \in heads}
+             vis == {k \in 1..NMAX : st.msgs[k].alive /\ st.msgs[k].prepped /\ ~st.msgs[k].todo}
+             lines(k) == {<<e.recs[i][2], e.recs[i][3], e.recs[i][4]>> : i \in {j \in 1..Len(e.recs) : e.recs[j][1] = k /\ e.recs[j][2] # -1}}
+             \* (a channel file is removed once all its recipients are done: they are no longer listed)
+             keep(k) == {i \in 1..Len(st.msgs[k].recs) : ~st.msgs[k].chgone[st.msgs[k].recs[i].c + 1]}
+             want(k) == {<<st.msgs[k].recs[i].c, st.msgs[k].recs[i].a, (IF st.msgs[k].recs[i].mark THEN 1 ELSE 0)>> : i \in keep(k)}
+         IN IF st.crashed \/ st.faulted \/ st.lossy THEN R(st, "")
+            ELSE IF e.status # 0 \/ e.ok # 1 THEN R(st, "X01:QueueListingFailedOrUnparseable")
+            ELSE IF \E k \in vis : k \notin shown THEN R(st, "X01:QueuedMessageNotListed")
+            ELSE IF \E k \in shown : k \in 1..NMAX /\ ~st.msgs[k].alive THEN R(st, "X01:ListedMessageNotInQueue")
+            ELSE IF \E i \in heads : e.recs[i][1] \in vis /\ e.recs[i][3] # st.msgs[e.recs[i][1]].s THEN R(st, "X01:ListedSenderWrong")
+            ELSE IF \E k \in vis : lines(k) # want(k) \/ Cardinality({j \in 1..Len(e.recs) : e.recs[j][1] = k /\ e.recs[j][2] # -1}) # Cardinality(keep(k))
+                   THEN R(st, "X01:ListedRecipientsOrDoneMarksWrong")
+            ELSE R(st, "")
     [] e.op = "noexit" -> R(st, "C03:DaemonDoesNotExitAfterTermWithNothingInFlight")
     [] e.op = "busyloop" -> R(st, "C16:DaemonNeverBlocks")
     [] e.op = "hang" -> R(st, "C15:DaemonStopsMakingProgress")
